@@ -1468,7 +1468,9 @@ theorem step_X {w : World} (e : Ev) (hI : Inv02 w)
     split
     · exact hI
     · split
-      · exact hI.env (EnvSame.of_conns rfl rfl rfl rfl) rfl rfl rfl rfl
+      · split
+        · exact hI.env (EnvSame.of_conns rfl rfl rfl rfl) rfl rfl rfl rfl
+        · exact hI.env (EnvSame.of_conns rfl rfl rfl rfl) rfl rfl rfl rfl
       · exact hI.env (EnvSame.of_conns rfl rfl rfl rfl) rfl rfl rfl rfl
   | waitElapsed =>
     simp only [step]
@@ -1482,7 +1484,9 @@ theorem step_X {w : World} (e : Ev) (hI : Inv02 w)
     · split
       · exact hI.env (EnvSame.of_conns rfl rfl rfl rfl) rfl rfl rfl rfl
       · exact hI.env (EnvSame.of_conns rfl rfl rfl rfl) rfl rfl rfl rfl
-      · exact hI.env (EnvSame.of_conns rfl rfl rfl rfl) rfl rfl rfl rfl
+      · split
+        · exact hI.env (EnvSame.of_conns rfl rfl rfl rfl) rfl rfl rfl rfl
+        · exact hI.env (EnvSame.of_conns rfl rfl rfl rfl) rfl rfl rfl rfl
       · rename_i k _
         have ha : Inv02 { w with ctxCancelled := true, connReady := true } :=
           hI.env (EnvSame.of_conns rfl rfl rfl rfl) rfl rfl rfl rfl
@@ -1503,18 +1507,27 @@ theorem step_X {w : World} (e : Ev) (hI : Inv02 w)
     simp only [step]
     split
     · exact hI
-    · refine hI.env ⟨rfl, fun m => ?_, rfl, fun _ k hk => ?_⟩ rfl rfl rfl rfl
-      · unfold msgPkts allPkts
-        simp [List.flatMap_append, about]
-      · simp only [Option.some.injEq] at hk
-        subst hk; simp
+    · split
+      · apply progress_X
+        refine hI.env ⟨rfl, fun m => ?_, rfl, fun _ k hk => ?_⟩ rfl rfl rfl rfl
+        · unfold msgPkts allPkts
+          simp [List.flatMap_append, about]
+        · simp only [Option.some.injEq] at hk
+          subst hk; simp
+      · refine hI.env ⟨rfl, fun m => ?_, rfl, fun _ k hk => ?_⟩ rfl rfl rfl rfl
+        · unfold msgPkts allPkts
+          simp [List.flatMap_append, about]
+        · simp only [Option.some.injEq] at hk
+          subst hk; simp
   | dialFail =>
     simp only [step]
     split
     · exact hI
     · split
       · exact hI.env (EnvSame.of_conns rfl rfl rfl rfl) rfl rfl rfl rfl
-      · exact hI.env (EnvSame.of_conns rfl rfl rfl rfl) rfl rfl rfl rfl
+      · split
+        · exact hI.env (EnvSame.of_conns rfl rfl rfl rfl) rfl rfl rfl rfl
+        · exact hI.env (EnvSame.of_conns rfl rfl rfl rfl) rfl rfl rfl rfl
   | connackOk sp inb =>
     by_cases h : ∃ k, w.phase = .connackGate k
     · obtain ⟨k, hk⟩ := h
@@ -1905,8 +1918,11 @@ theorem step_K {w : World} (e : Ev) (hI : Inv12 w) (h0 : w.initialized = false) 
     split
     · exact ⟨fun _ => hK, fun _ => h0⟩
     · split
-      · exact ⟨fun _ => ⟨hK.stuck, hK.gor, hK.gate, hK.q2, hK.stash, (fun k h => by cases h)⟩,
-          fun _ => h0⟩
+      · split
+        · exact ⟨fun _ => ⟨hK.stuck, hK.gor, hK.gate, hK.q2, hK.stash, (fun k h => by cases h)⟩,
+            fun _ => h0⟩
+        · exact ⟨fun _ => ⟨hK.stuck, hK.gor, hK.gate, hK.q2, hK.stash, (fun k h => by cases h)⟩,
+            fun _ => h0⟩
       · exact ⟨fun _ => ⟨hK.stuck, hK.gor, hK.gate, hK.q2, hK.stash, (fun k h => by cases h)⟩,
           fun _ => h0⟩
   | waitElapsed =>
@@ -1925,8 +1941,12 @@ theorem step_K {w : World} (e : Ev) (hI : Inv12 w) (h0 : w.initialized = false) 
           (fun k h => by rw [show w.phase = Phase.idle from hph] at h; cases h)⟩, fun _ => h0⟩
       · exact ⟨fun _ => ⟨hK.stuck, hK.gor, hK.gate, hK.q2, hK.stash, (fun k h => by cases h)⟩,
           fun _ => h0⟩
-      · exact ⟨fun _ => ⟨hK.stuck, hK.gor, hK.gate, hK.q2, hK.stash, (fun k h => by cases h)⟩,
-          fun _ => h0⟩
+      · rename_i hph
+        split
+        · exact ⟨fun _ => ⟨hK.stuck, hK.gor, hK.gate, hK.q2, hK.stash,
+            (fun k h => by rw [show w.phase = Phase.dialGate from hph] at h; cases h)⟩, fun _ => h0⟩
+        · exact ⟨fun _ => ⟨hK.stuck, hK.gor, hK.gate, hK.q2, hK.stash, (fun k h => by cases h)⟩,
+            fun _ => h0⟩
       · rename_i k hk
         have hph : w.phase = .connackGate k := hk
         have hc := hK.phase k hph
@@ -1970,17 +1990,34 @@ theorem step_K {w : World} (e : Ev) (hI : Inv12 w) (h0 : w.initialized = false) 
     simp only [step]
     split
     · exact ⟨fun _ => hK, fun _ => h0⟩
-    · refine ⟨fun _ => ⟨hK.stuck, fun _ => rfl, ?_, hK.q2, hK.stash, ?_⟩, fun _ => h0⟩
-      · intro k hk _
-        refine ⟨rfl, ?_⟩
-        show (if w.goroutine = true ∧ w.gConnected = true ∧ ¬ w.stuck = true then false
-          else w.gConnected) = false
-        cases hg : w.gConnected with
-        | false => simp
-        | true => simp [hK.gor hg, hK.stuck]
-      · intro k hk
-        simp only [Phase.connackGate.injEq] at hk
-        subst hk; rfl
+    · split
+      · -- (deaf dialer) a dead connection that carries only CONNECT; the broker still has seen nothing
+        have key : ∀ w0 : World, Inv12 w0 → w0.initialized = false → KInv w0 →
+            ((progress w0).initialized = false → KInv (progress w0)) ∧
+            ((∀ sp inb, Ev.dialOk idStart ≠ .connackOk sp inb) → (progress w0).initialized = false) :=
+          fun w0 hI0 hi0 hK0 =>
+            ⟨fun _ => progress_K hI0 hi0 hK0, fun _ => (progress_inv hI0).2.initialized.trans hi0⟩
+        refine key _ (hI.env ⟨rfl, fun m => ?_, rfl, fun _ k hk => ?_⟩ rfl rfl) h0
+          ⟨hK.stuck, fun _ => rfl, ?_, hK.q2, hK.stash, (fun k h => by cases h)⟩
+        · unfold msgPkts allPkts
+          simp [List.flatMap_append, about]
+        · simp only [Option.some.injEq] at hk
+          subst hk; simp
+        · intro k hk ha
+          simp only [Option.some.injEq] at hk
+          subst hk
+          simp [getConn] at ha
+      · refine ⟨fun _ => ⟨hK.stuck, fun _ => rfl, ?_, hK.q2, hK.stash, ?_⟩, fun _ => h0⟩
+        · intro k hk _
+          refine ⟨rfl, ?_⟩
+          show (if w.goroutine = true ∧ w.gConnected = true ∧ ¬ w.stuck = true then false
+            else w.gConnected) = false
+          cases hg : w.gConnected with
+          | false => simp
+          | true => simp [hK.gor hg, hK.stuck]
+        · intro k hk
+          simp only [Phase.connackGate.injEq] at hk
+          subst hk; rfl
   | dialFail =>
     simp only [step]
     split
@@ -1988,8 +2025,11 @@ theorem step_K {w : World} (e : Ev) (hI : Inv12 w) (h0 : w.initialized = false) 
     · split
       · exact ⟨fun _ => ⟨hK.stuck, hK.gor, hK.gate, hK.q2, hK.stash, (fun k h => by cases h)⟩,
           fun _ => h0⟩
-      · exact ⟨fun _ => ⟨hK.stuck, hK.gor, hK.gate, hK.q2, hK.stash, (fun k h => by cases h)⟩,
-          fun _ => h0⟩
+      · split
+        · exact ⟨fun _ => ⟨hK.stuck, hK.gor, hK.gate, hK.q2, hK.stash, (fun k h => by cases h)⟩,
+            fun _ => h0⟩
+        · exact ⟨fun _ => ⟨hK.stuck, hK.gor, hK.gate, hK.q2, hK.stash, (fun k h => by cases h)⟩,
+            fun _ => h0⟩
   | connackOk sp inb =>
     refine ⟨?_, fun h => absurd rfl (h sp inb)⟩
     by_cases h : ∃ k, w.phase = .connackGate k
@@ -2091,7 +2131,9 @@ theorem step_init_mono {w : World} (e : Ev) (hI : Inv12 w)
     simp only [step]
     split
     · exact h1
-    · split <;> exact h1
+    · split
+      · split <;> exact h1
+      · exact h1
   | waitElapsed => simp only [step]; split <;> exact h1
   | cancelCtx =>
     simp only [step]
@@ -2100,7 +2142,7 @@ theorem step_init_mono {w : World} (e : Ev) (hI : Inv12 w)
     · split
       · exact h1
       · exact h1
-      · exact h1
+      · split <;> exact h1
       · rename_i k _
         have ha : Inv12 { w with ctxCancelled := true, connReady := true } :=
           hI.env (EnvSame.of_conns rfl rfl rfl rfl) rfl rfl
@@ -2118,12 +2160,27 @@ theorem step_init_mono {w : World} (e : Ev) (hI : Inv12 w)
     · exact h1
     · have := (progress_inv (accept_inv r hI (fun m q h => hnew m q (by rw [h])))).2.initialized
       exact this.trans h1
-  | dialOk idStart => simp only [step]; split <;> exact h1
+  | dialOk idStart =>
+    simp only [step]
+    split
+    · exact h1
+    · split
+      · have key : ∀ w0 : World, Inv12 w0 → w0.initialized = true →
+            (progress w0).initialized = true :=
+          fun w0 hI0 hi0 => (progress_inv hI0).2.initialized.trans hi0
+        refine key _ (hI.env ⟨rfl, fun m => ?_, rfl, fun _ k hk => ?_⟩ rfl rfl) h1
+        · unfold msgPkts allPkts
+          simp [List.flatMap_append, about]
+        · simp only [Option.some.injEq] at hk
+          subst hk; simp
+      · exact h1
   | dialFail =>
     simp only [step]
     split
     · exact h1
-    · split <;> exact h1
+    · split
+      · exact h1
+      · split <;> exact h1
   | connackOk sp inb =>
     by_cases h : ∃ k, w.phase = .connackGate k
     · obtain ⟨k, hk⟩ := h
